@@ -409,6 +409,18 @@ def check_C08(run):
 def make_requests(run, pool, frac):
     rng = run.rng
     chosen = [e for e in pool if rng.random() < frac]
+    # clocks around and beyond the fifty-move threshold, large full-move numbers
+    bumped = []
+    for e in chosen:
+        if rng.random() < 0.2:
+            parts = e["fen"].split(" ")
+            parts[4] = str(rng.choice([97, 98, 99, 100, 101, 150, 200, 1000]))
+            parts[5] = str(rng.choice([1, 60, 500, 30000]))
+            if parts[3] == "-":
+                bumped.append({"cls": e["cls"] + "+clock", "fen": " ".join(parts)})
+                continue
+        bumped.append(e)
+    chosen = bumped
     gens = vlib.run_model_par([f"gen\t{e['fen']}" for e in chosen])
     reqs, meta = [], []
     for e, g in zip(chosen, gens):
@@ -610,6 +622,47 @@ def check_C04(run):
             nv += 1
             run.violation("model-mismatch", "play-out ends differently in model and implementation", {"start": g["start"], "moves": g["moves"],
                                                                                                      "implementation": a, "model": b}, found_input=False)
+    # twins: the same position with two different men exchanged (or one man moved to an empty square, or one right /
+    # the turn / the ep file changed) must have a different key -- probes the per-feature keys directly
+    import random as _r
+    rr = _r.Random(run.seed * 31 + 5)
+    base = [e["fen"] for e in pool if rr.random() < (0.5 if run.tier == "thorough" else 0.12)]
+    twins = []
+    for f in base:
+        parts = f.split(" ")
+        b = G.parse_board(f)
+        occ = sorted(b)
+        for _ in range(3):
+            nb = dict(b)
+            kind = rr.random()
+            if kind < 0.6 and len(occ) >= 2:
+                x, y = rr.sample(occ, 2)
+                if nb[x] == nb[y]:
+                    continue
+                nb[x], nb[y] = nb[y], nb[x]
+            else:
+                x = rr.choice(occ)
+                free = [q for q in range(64) if q not in nb]
+                y = rr.choice(free)
+                nb[y] = nb.pop(x)
+            if any(c in "Pp" and q // 8 in (0, 7) for q, c in nb.items()):
+                continue
+            twins.append((f, G.fen_of(nb, parts[1], "-", "-", parts[4], parts[5]), G.fen_of(b, parts[1], "-", "-", parts[4], parts[5])))
+    okt = vlib.run_model_par([f"inD\t{t[1]}" for t in twins])
+    twins = [t for t, o in zip(twins, okt) if o == "1"]
+    enc = lambda x: " ".join(str(ord(ch)) for ch in x)
+    h1, _ = vlib.run_impl_par([f"fenraw\twrapping\t{enc(t[1])}" for t in twins])
+    h2, _ = vlib.run_impl_par([f"fenraw\twrapping\t{enc(t[2])}" for t in twins])
+    ntw = 0
+    for t, a, b2 in zip(twins, h1, h2):
+        run.note_case(("twin", t[1]), "twin")
+        if a.startswith("ok ") and b2.startswith("ok ") and kv(a[3:])["hash"] == kv(b2[3:])["hash"]:
+            ntw += 1
+            if ntw <= 10:
+                run.violation("key-collision", "two positions that differ in piece placement only have the same key",
+                              {"position_1": t[2], "position_2": t[1], "key": kv(a[3:])["hash"],
+                               "repro": "position fen <each>; print  (compare the Hash lines)"})
+    run.cov["twins_compared"] = len(twins)
     run.cov["distinct_keys_seen"] = len(feats)
     run.cov["traces_validated_against_impl"] = len(reqs) + len(plays)
     run.sample({"request": reqs[0], "implementation": impl[0][:400]})
